@@ -14,7 +14,11 @@ import KV.Model.MConn
 
 `mconn` (packetisation):
 * `case max=<maxPacketMsgPayloadSize> caps=<id>:<cap>,…`
-* `enq <ch> <hex>`, `send <picked ch>`, `idle`, `recv <ch> <eof> <hex>`, `status <ch>` -/
+* `enq <ch> <hex>`, `send <picked ch>`, `idle`, `recv <ch> <eof> <hex>`,
+* `status <ch>` → `sending=<nil | len> queue=… recving=… delivered=…`: `sending=nil` is
+  `ch.sending == nil` (nothing in flight), `sending=0` an empty message in flight (non-nil empty slice)
+* `pending <ch>` → `0`/`1`: one direct call of `ch.isSendPending()` INCLUDING its side effect (the
+  dequeue into `ch.sending`) on that channel only -/
 namespace KV.Drv.C20
 open KV KV.SecretConn KV.MConn
 
@@ -165,11 +169,20 @@ def mcStep (s : MC) (line : String) : MC × String :=
       | some (none, r) =>
         ({ s with sys := { s.sys with ch := upd s.sys.ch c { ch with recving := r } } }, "none")
     | _, _ => (s, "bad-op")
+  | ["pending", c] =>
+    match c.toNat? with
+    | some c =>
+      let (b, ch') := isSendPending (s.sys.ch c)
+      ({ s with sys := { s.sys with ch := upd s.sys.ch c ch' } }, if b then "1" else "0")
+    | none => (s, "bad-op")
   | ["status", c] =>
     match c.toNat? with
     | some c =>
       let ch := s.sys.ch c
-      (s, s!"sending={ch.sending.length} queue={ch.queue.length} recving={ch.recving.length} delivered={ch.delivered.length}")
+      let snd := match ch.sending with
+        | none => "nil"
+        | some b => toString b.length
+      (s, s!"sending={snd} queue={ch.queue.length} recving={ch.recving.length} delivered={ch.delivered.length}")
     | none => (s, "bad-op")
   | _ => (s, "bad-op")
 
